@@ -273,4 +273,29 @@ op('store_as_u', 'conv', C06, ALL, 'bP', 'void', 'xsimd::store_as(o, a, xsimd::u
    ptr_type=lambda ty, var: _TY[var['To']].c, mem_bits=lambda ty, var: _TY[var['To']].bits)
 op('broadcast_as', 'conv', C06, ALL, 's', 'R_<{To}>', 'xsimd::broadcast_as<{To}, A>(s)', WS.broadcast_as_spec, whole=True, lit=_clit, variants=_all_types('To'))
 
+# ---- C17 scalar overloads: the SAME spec forms as the batch kernels, applied to the scalar overload ----------------
+import re as _re
+C17 = ['C17']
+_SC_SKIP = ('sign', 'fsign', 'fsignnz', 'fbitofsign', 'shl_op', 'shr_op', 'bool_to_batch', 'shl_v', 'shr_v')
+
+
+def _scalarise(expr):
+    e = _re.sub(r'\ba\b', 's', expr)
+    e = _re.sub(r'\bb\b', 't', e)
+    e = _re.sub(r'\bc\b', 'w', e)
+    e = _re.sub(r'\bm\b', 'k', e)
+    return e
+
+
+for _o in list(OPS):
+    if not (set(_o.props) & set(['C01', 'C02', 'C03', 'C07', 'C08'])) or getattr(_o, 'whole', False) or _o.name in _SC_SKIP or _o.name.startswith('mb_'):
+        continue
+    if any(ch not in 'bm' for ch in _o.params) or _o.ret not in ('b', 'm'):
+        continue
+    _so = op('s_' + _o.name, 'scalar', C17, _o.types, _o.params.replace('b', 's').replace('m', 'k'), 's' if _o.ret == 'b' else 'bool',
+             _scalarise(_o.expr), _o.spec, variants=_o.variants)
+# per-lane shift counts on scalars are the (value, count) overloads
+op('s_clip', 'scalar', C17, ALL, 'sss', 's', 'xsimd::clip(s, t, w)', S.clip_scalar)
+op('clip', 'scalar', C17, ALL, 'bbb', 'b', 'xsimd::clip(a, b, c)', S.clip_batch)
+
 BY_NAME = dict((o.name, o) for o in OPS)
